@@ -46,7 +46,7 @@ func fnv32a(s string) uint32 {
 
 // host states
 const (
-	stUp = iota
+	stUp     = iota
 	stPartly // one failure below max_fails and one connection below max_conns: still available
 	stUnhealthy
 	stFailed
@@ -442,15 +442,15 @@ func (w *plainWriter) Write(p []byte) (int, error) {
 }
 
 type retryCase struct {
-	Block    string   `json:"upstream_block"`
-	Scripts  []string `json:"backend_scripts"`
-	BodyLen  int      `json:"body_len"`
-	Chunked  bool     `json:"chunked"`
-	Schedule []int    `json:"choices"`
+	Block    string    `json:"upstream_block"`
+	Scripts  []string  `json:"backend_scripts"`
+	BodyLen  int       `json:"body_len"`
+	Chunked  bool      `json:"chunked"`
+	Schedule []int     `json:"choices"`
 	Attempts []attempt `json:"attempts"`
-	Status   int      `json:"status"`
-	Err      string   `json:"error"`
-	Clock    string   `json:"virtual_clock_at_return"`
+	Status   int       `json:"status"`
+	Err      string    `json:"error"`
+	Clock    string    `json:"virtual_clock_at_return"`
 }
 
 func retries(rep *kit.Report) {
